@@ -8,6 +8,19 @@ RAN = ("validated in a scratch git worktree of /repo HEAD (/tmp/sv_<id>, removed
        "stable tests pass{extra}. Then `git -C /repo apply patch.diff`, `python -m allfedsa.cli <PID>`, `git -C /repo checkout -- .`.")
 
 SEEDS = {
+    "C12_1": dict(property="C12", summary="retail meat waste applied the wrong way round in add_meat_to_model_no_storage: eaten x (1 - w) <= slaughtered",
+                  needs="no_stored_between_years regimes, culled meat with non-zero waste, a livestock-heavy country (IRL)",
+                  caught_by=[("C12", "C12.WASTE"), ("C01", "C01.MEAT")], first_result="silent in the C12 check (waste monotonicity was listed as not decided); caught by C01.MEAT",
+                  strengthened="new rule C12.WASTE: the coefficient of every eaten variable, as a function of each retail-waste percentage, has a derivative of "
+                               "the coefficient's own sign (exact symbolic derivative, sign by interval arithmetic on its numerator)"),
+    "C12_2": dict(property="C12", summary="`if POP < 1e7: continue` skips the intake cap relative to actual intake for small countries",
+                  needs="a country under 10 million people, resilient foods with intake constraints, the cap binding",
+                  caught_by=[("C12", "C12.SCALE"), ("C02", "C02.CAPS")], first_result="silent in the C12 check; caught by C02.CAPS",
+                  strengthened="C12.SCALE also requires every data-dependent decision taken while building the to-humans programme to be homogeneous "
+                               "(an absolute threshold on a degree-1 quantity is reported)"),
+    "C12_3": dict(property="C12", summary="last-month crop balance of to-humans runs rearranged with production subtracted",
+                  needs="the final month limiting the max-min objective (short horizons, declining supply)",
+                  caught_by=[("C12", "C12.SIGN"), ("C01", "C01.CROP")], first_result="caught as written", strengthened=None),
     "C06_1": dict(property="C06", summary="early `return 0` in calculate_animal_population when the herd starts the month at zero",
                   needs="a herd first run down to exactly zero (reduced / feed_only_ruminants strategies): arrivals (dairy retirees, bull calves, births) vanish",
                   caught_by=[("C06", "C06.LEDGER")], first_result="caught as written", strengthened=None),
